@@ -104,6 +104,7 @@ type world struct {
 	closeQuiesced   map[string]int // side -> clock after the step that called Close reached quiescence
 	transportClosed map[string]int // side -> clock when the SDK closed its transport end
 	broken          bool           // a fault was injected (fail/vanish): contexts may legitimately be cancelled
+	vanished        bool           // the link is gone in both directions (an end of the pipe was closed)
 }
 
 func (w *world) tick() int { w.clock++; return w.clock }
@@ -385,6 +386,7 @@ func runInBubble(s Script) (res vt.Result) {
 			ends[st.Side].Close()
 			w.mu.Lock()
 			w.broken = true
+			w.vanished = true
 			w.mu.Unlock()
 			desc.WriteString("V" + st.Side[:1])
 		case "late": // the peer of st.Side sends a fresh request to st.Side
@@ -438,6 +440,16 @@ func runInBubble(s Script) (res vt.Result) {
 					if tc := w.transportClosed[h.side]; tc != 0 && (!h.ended || h.endClock > tc) {
 						res.Failf("step %d: %s closed its transport while its handler %d was still running", i, h.side, h.k)
 					}
+				}
+			}
+		}
+		// (d) once the link is gone in both directions nobody can cancel or be answered any more: the SDK
+		// documents (jsonrpc2 readIncoming) that in-flight incoming requests are then cancelled, so that
+		// handlers waiting on their context return. No handler may still be parked with a live context.
+		if w.vanished {
+			for _, h := range w.hs {
+				if !h.ended {
+					res.Failf("step %d: the link is gone (an end of the pipe was closed) but the %s handler %d is still parked with a live context", i, h.side, h.k)
 				}
 			}
 		}
